@@ -422,41 +422,41 @@ Proof.
 Qed.
 
 Lemma run_prog_panic_in tk k now m who : forall p s,
-  snd (run_prog tk k now m who p s) = RPanic -> In (IPanic m who) (x_log (fst (run_prog tk k now m who p s))).
+  snd (run_prog tk k now m who p s) = RPanic -> exists cc, In (IPanic m who cc) (x_log (fst (run_prog tk k now m who p s))).
 Proof.
   induction p as [|a p IH]; intros s; cbn [run_prog fst snd]; [discriminate|].
   destruct a; try apply IH.
   - destruct (tk && (0 <? d)); cbn [fst snd]; [discriminate|apply IH].
-  - intros _. cbn [fst say x_log]. apply in_or_app. right. left. reflexivity.
+  - intros _. cbn [fst say x_log]. eexists. apply in_or_app. right. left. reflexivity.
   - destruct tk; cbn [fst snd]; [apply IH|discriminate].
 Qed.
 
 Lemma at_sim_start_err k c now m stage s :
-  snd (at_sim_start k c now m stage s) = true -> In (IPanic m 0) (x_log (fst (at_sim_start k c now m stage s))).
+  snd (at_sim_start k c now m stage s) = true -> exists cc, In (IPanic m 0 cc) (x_log (fst (at_sim_start k c now m stage s))).
 Proof.
   unfold at_sim_start.
   assert (G : forall sp p, snd (exec k now m (CbStart stage) sp p s) = true ->
-                           In (IPanic m 0) (x_log (fst (exec k now m (CbStart stage) sp p s)))).
+                           exists cc, In (IPanic m 0 cc) (x_log (fst (exec k now m (CbStart stage) sp p s)))).
   { intros sp p. unfold exec.
     match goal with |- context [run_prog false k now m 0 p ?s0] =>
       pose proof (run_prog_panic_in false k now m 0 p s0) as H; destruct (run_prog false k now m 0 p s0) as [s2 r] end.
     cbn [fst snd] in H. destruct r; cbn [fst snd]; try discriminate. intros _. apply H. reflexivity. }
   set (e := if stage =? 0 then exec k now m (CbStart stage) (c_tasks c) (pick_start c (inc (w_mod (x_w s) m))) s
             else exec k now m (CbStart stage) [] [] s).
-  assert (He : snd e = true -> In (IPanic m 0) (x_log (fst e))) by (unfold e; destruct (stage =? 0); apply G).
+  assert (He : snd e = true -> exists cc, In (IPanic m 0 cc) (x_log (fst e))) by (unfold e; destruct (stage =? 0); apply G).
   destruct e as [s1 p]. cbn [fst snd] in He. unfold catch. destruct p; cbn [fst snd].
-  - destruct (c_catch c); cbn [fst snd x_log]; [discriminate|]. intros _. apply He. reflexivity.
+  - destruct (catchf (w_mod (x_w s1) m)); cbn [fst snd x_log]; [discriminate|]. intros _. apply He. reflexivity.
   - discriminate.
 Qed.
 
 (* a stage deactivates the module only by a panic of its callback *)
 Lemma at_sim_start_deact k c now m stage s :
   active (w_mod (x_w (fst (at_sim_start k c now m stage s))) m) = false -> active (w_mod (x_w s) m) = true ->
-  In (IPanic m 0) (x_log (fst (at_sim_start k c now m stage s))).
+  exists cc, In (IPanic m 0 cc) (x_log (fst (at_sim_start k c now m stage s))).
 Proof.
   unfold at_sim_start.
   assert (G : forall sp p, (snd (exec k now m (CbStart stage) sp p s) = true ->
-                            In (IPanic m 0) (x_log (fst (exec k now m (CbStart stage) sp p s)))) /\
+                            exists cc, In (IPanic m 0 cc) (x_log (fst (exec k now m (CbStart stage) sp p s)))) /\
                            active (w_mod (x_w (fst (exec k now m (CbStart stage) sp p s))) m) = active (w_mod (x_w s) m)).
   { intros sp p. split; [|apply (fr_active _ _ _ (exec_Fr k now m (CbStart stage) sp p s))]. unfold exec.
     match goal with |- context [run_prog false k now m 0 p ?s0] =>
@@ -464,16 +464,16 @@ Proof.
     cbn [fst snd] in H. destruct r; cbn [fst snd]; try discriminate. intros _. apply H. reflexivity. }
   set (e := if stage =? 0 then exec k now m (CbStart stage) (c_tasks c) (pick_start c (inc (w_mod (x_w s) m))) s
             else exec k now m (CbStart stage) [] [] s).
-  assert (He : (snd e = true -> In (IPanic m 0) (x_log (fst e))) /\ active (w_mod (x_w (fst e)) m) = active (w_mod (x_w s) m))
+  assert (He : (snd e = true -> exists cc, In (IPanic m 0 cc) (x_log (fst e))) /\ active (w_mod (x_w (fst e)) m) = active (w_mod (x_w s) m))
     by (unfold e; destruct (stage =? 0); apply G).
   destruct e as [s1 p]. cbn [fst snd] in He. destruct He as [He1 He2]. unfold catch. destruct p; cbn [fst snd x_w x_log].
-  - intros _ _. destruct (c_catch c); cbn [fst x_log]; apply He1; reflexivity.
+  - intros _ _. destruct (catchf (w_mod (x_w s1) m)); cbn [fst x_log]; apply He1; reflexivity.
   - intros Hf Ht. congruence.
 Qed.
 
 Lemma restart_fold_full k c now m : forall l s,
   let r := fold_left (fun (acc : xs * bool) stage => if snd acc then acc else restart_stage k c now m stage (fst acc)) l (s, false) in
-  active (w_mod (x_w s) m) = true -> ~ In (IPanic m 0) (x_log (fst r)) ->
+  active (w_mod (x_w s) m) = true -> (forall cc, ~ In (IPanic m 0 cc) (x_log (fst r))) ->
   map (fun i => match i with ICall m' (CbStart st) t _ => (m', st, t) | _ => (0, 0, 0) end) (start_calls (x_log (fst r))) =
   map (fun i => match i with ICall m' (CbStart st) t _ => (m', st, t) | _ => (0, 0, 0) end) (start_calls (x_log s)) ++
   map (fun st => (m, st, now)) l.
@@ -486,10 +486,10 @@ Proof.
   destruct (at_sim_start k c now m st s) as [s1 e1]. cbn [fst snd] in *.
   destruct (restart_fold_ok k c now m l s1 (e1 || negb (active (w_mod (x_w s1) m)))) as [_ (lx & Hlx & _)].
   destruct e1; cbn [orb] in *.
-  - exfalso. apply Hn. rewrite Hlx. apply in_or_app. left. apply He. reflexivity.
+  - exfalso. destruct (He eq_refl) as (cc & Hc). apply (Hn cc). rewrite Hlx. apply in_or_app. left. exact Hc.
   - destruct (active (w_mod (x_w s1) m)) eqn:Ea; cbn [negb] in *.
     + rewrite (IH s1 Ea Hn), Ha, map_app. cbn [map]. rewrite <- app_assoc. reflexivity.
-    + exfalso. apply Hn. rewrite Hlx. apply in_or_app. left. apply Hd; [reflexivity|exact Hact].
+    + exfalso. destruct (Hd eq_refl Hact) as (cc & Hc). apply (Hn cc). rewrite Hlx. apply in_or_app. left. exact Hc.
 Qed.
 
 Definition call_key (i : item) : N * N * N :=
@@ -519,7 +519,7 @@ Qed.
 Theorem restart_runs_stages_once sc e m : In e (trace sc) -> e_kind e = KLoop (EvRestart m) ->
   (exists n, (stage_list (c_stages (cfg sc m)) <> [] -> (0 < n)%nat) /\
      map call_key (start_calls (e_items e)) = map (fun st => (m, st, e_time e)) (firstn n (stage_list (c_stages (cfg sc m))))) /\
-  (~ In (IPanic m 0) (e_items e) ->
+  ((forall cc, ~ In (IPanic m 0 cc) (e_items e)) ->
      map call_key (start_calls (e_items e)) = map (fun st => (m, st, e_time e)) (stage_list (c_stages (cfg sc m)))).
 Proof.
   intros Hin Hk. apply in_split in Hin. destruct Hin as (pre & post & E).
@@ -536,7 +536,7 @@ Proof.
     exists n. split; [intros H; apply Hpos; [reflexivity|exact H]|]. exact Hn.
   - intros Hnp. apply (restart_fold_full (nmods sc) (cfg sc m) t m (stage_list (c_stages (cfg sc m))) s0).
     { unfold s0. cbn [on_w x_w]. rewrite mod_same. reflexivity. }
-    intros C. apply Hnp. apply in_or_app. left. apply in_or_app. left. exact C.
+    intros cc C. apply (Hnp cc). apply in_or_app. left. apply in_or_app. left. exact C.
 Qed.
 
 (* C09 fresh_after_restart (partial): when a restart event of module m is dispatched, m is down:
